@@ -585,6 +585,11 @@ pub fn node_panics() -> Vec<RecordedPanic> {
         .unwrap_or_default()
 }
 
+/// every recorded panic, the check's own thread included (child-process phases)
+pub fn all_panics() -> Vec<RecordedPanic> {
+    PANICS.lock().map(|g| g.clone()).unwrap_or_default()
+}
+
 pub fn clear_panics() {
     if let Ok(mut g) = PANICS.lock() {
         g.clear();
